@@ -5,7 +5,7 @@
     modelled, not verified; their observed rules are listed in the evidence and held to the code by the
     correspondence C16 on several thousand mutated documents per run). *)
 From Coq Require Import ZArith QArith String List Bool.
-From Texel Require Import Tms.Json Tms.Model Tms.ProofsC16 Tms.ProofsC16b Tms.ProofsC16c.
+From Texel Require Import Tms.Json Tms.Model Tms.ProofsC16 Tms.ProofsC16b Tms.ProofsC16c Tms.ProofsC16d.
 From Texel.Gen Require Import ConstsGen TmsData.
 Import ListNotations.
 Open Scope Z_scope.
@@ -48,6 +48,33 @@ Print Assumptions C16_normal_form_fixed.
 Theorem C16_decoded_well_formed : forall j t, decodeTMS j = Ok t -> tms_wf t.
 Proof. exact decode_wf. Qed.
 Print Assumptions C16_decoded_well_formed.
+
+(** Malformed sizes, the part that holds (name: _partial -- negative and fractional sizes are NOT rejected, see
+    C16_refuted_nonpositive_rejected below): in a document whose (last) tileMatrices member is an array containing a
+    tile matrix object with tileWidth / tileHeight / matrixWidth / matrixHeight a number whose float64 image lies
+    strictly between -1 and 1 (zero, and everything that truncates to zero), or with a cellSize / scaleDenominator
+    that is not positive, decoding does not succeed. *)
+Theorem C16_nonpositive_rejected_partial : forall o l tmo k d q,
+  lookup_last "tileMatrices" o = Some (JArr l) -> In (JObj tmo) l ->
+  lookup_last k tmo = Some (JNum d) -> f64_dec d = FNum q ->
+  (In k size_keys /\ (-1 < q)%Q /\ (q < 1)%Q) \/ ((k = "cellSize" \/ k = "scaleDenominator") /\ (q <= 0)%Q) ->
+  forall t, decodeTMS (JObj o) <> Ok t.
+Proof. exact nonpositive_rejected_lemma. Qed.
+Print Assumptions C16_nonpositive_rejected_partial.
+
+(** Totality, the part that holds (name: _partial -- the full statement is refuted by F6c below): a document in which
+    no pointOfOrigin / lowerLeft / upperRight member, at any depth, is an array of more than 2 elements never makes
+    the decoder panic -- whatever else is wrong with it, the answer is a value or an error. *)
+Theorem C16_decode_total_partial : forall j, points_short j = true -> decodeTMS j <> Panic /\ decodeTMS j <> ErrorOrPanic.
+Proof. exact decode_total_partial_lemma. Qed.
+Print Assumptions C16_decode_total_partial.
+
+(** every tile matrix of a decoded document was decoded on its own *)
+Theorem C16_decoded_matrices : forall o t, decodeTMS (JObj o) = Ok t ->
+  exists l, lookup_last "tileMatrices" o = Some (JArr l) /\
+    forall x, In x l -> exists tmo m, x = JObj tmo /\ decodeTM tmo = Ok m.
+Proof. exact decoded_matrices_lemma. Qed.
+Print Assumptions C16_decoded_matrices.
 
 (** What the code as it stands gets wrong (each witness is found again on the implementation by the harness on every
     run and attributed to the known finding named). *)
@@ -105,3 +132,10 @@ Proof.
   destruct (decodeTMS doc) as [t| | |]; try discriminate. exists t. split; [reflexivity|apply tms_stableb_spec; exact H].
 Qed.
 Print Assumptions C16_builtin_stable.
+
+(** the hypotheses of the two partial theorems are met by concrete documents: tileWidth 0 (an error), and the
+    well-formed small document (no long point; decodes) *)
+Example C16_example_zero_width :
+  decodeTMS (doc_with (tm_with (jn 0 0) (JArr [jn 1 0; jn 2 0]) [])) = Error /\
+  points_short doc_ok = true /\ points_short doc_origin3 = false /\ (exists t, decodeTMS doc_ok = Ok t).
+Proof. split; [vm_compute; reflexivity|]. split; [vm_compute; reflexivity|]. split; [vm_compute; reflexivity|]. eexists. vm_compute. reflexivity. Qed.
